@@ -213,6 +213,8 @@ impl Request {
     }
 
     pub fn parse_request(request_vec_u8: &[u8]) ->  Result<Request, String> {
+        #[cfg(rws_verif)]
+        crate::verif_hooks::point("request.parse.enter");
         let mut cursor = io::Cursor::new(request_vec_u8);
 
         let mut request = Request {
